@@ -1,5 +1,6 @@
 mod dcmap;
 mod dcpkt;
+mod dcstream;
 mod keyids;
 #[path = "../../h-core/src/util.rs"]
 mod util;
@@ -12,6 +13,8 @@ fn main() {
     let cmd = args.first().map(|s| s.as_str()).unwrap_or("");
     let rest = &args[1.min(args.len())..];
     let out = match cmd {
+        "dcstream-sim" => dcstream::sim_record(rest),
+        "dcstream-real" => dcstream::real_record(rest),
         "dcpkt-record" => dcpkt::record(rest),
         "dcctl-record" => dcpkt::control(rest),
         "keyids-replay" => keyids::replay(rest),
